@@ -590,13 +590,17 @@ func (t *Table) UpdateChain(chain *generictables.Chain) {
 		t.logCxt.WithField("chainName", chain.Name).Debug("Chain has force programming flag, incref.")
 		t.increfChain(chain.Name)
 	}
+	oldChain := t.chainNameToChain[chain.Name]
+	if oldChain != nil && oldChain.ForceProgramming {
+		// Drop the old chain's self-reference before taking references on behalf of the new
+		// rules: if it was the last reference, decrefChain releases the old rules' references
+		// and the new, unreferenced, chain must not take any.
+		t.logCxt.WithField("chainName", chain.Name).Debug("Old chain has force programming flag, decref.")
+		t.decrefChain(chain.Name)
+	}
 	t.maybeIncrefReferredChains(chain.Name, chain.Rules)
-	if oldChain := t.chainNameToChain[chain.Name]; oldChain != nil {
+	if oldChain != nil {
 		oldNumRules = len(oldChain.Rules)
-		if oldChain.ForceProgramming {
-			t.logCxt.WithField("chainName", chain.Name).Debug("Old chain has force programming flag, decref.")
-			t.decrefChain(chain.Name)
-		}
 		t.maybeDecrefReferredChains(chain.Name, oldChain.Rules)
 	}
 	t.chainNameToChain[chain.Name] = chain
